@@ -59,6 +59,10 @@ func (t Trans) String() string {
 		return fmt.Sprintf("%s(%s)", t.Ctrl, t.ID)
 	case "crash":
 		return fmt.Sprintf("crash@%d:%s(%s)", t.K, t.Ctrl, t.ID)
+	case "hold":
+		return fmt.Sprintf("hold@%d:%s(%s)", t.K, t.Ctrl, t.ID)
+	case "release":
+		return fmt.Sprintf("release@%d:%s(%s)", t.K, t.Ctrl, t.ID)
 	case "interleave":
 		if t.Ctrl2 == "" {
 			return fmt.Sprintf("%s(%s)[client:%s before write %d]", t.Ctrl, t.ID, t.Fault, t.K+1)
@@ -76,6 +80,18 @@ type Env struct {
 	Crashes int
 	Inter   int    // interleaved steps used
 	Flags   string // scenario-specific, e.g. which faults were already used
+	// split steps: Held describes the reconcile call that is parked before one of its effects ("" = none):
+	// controller|id|k|content hash of the world it began in. HeldSteps counts the transitions taken since.
+	Held      string
+	HeldSteps int
+	Holds     int // split steps used on this path
+}
+
+// heldParts decodes Env.Held.
+func heldParts(h string) (ctrl, id string, k int) {
+	p := strings.Split(h, "|")
+	fmt.Sscan(p[2], &k)
+	return p[0], p[1], k
 }
 
 // E1State is a node of the search graph.
@@ -92,6 +108,9 @@ type E1State struct {
 	storeCanon string
 	// aux is check-specific memory carried along the path (part of the state identity)
 	aux string
+	// heldSnap is the world the held call (env.Held) began in; it comes from this state's own path, so its version
+	// numbering is consistent with snap
+	heldSnap *WorldSnap
 }
 
 // Trace returns the transitions from the initial state.
@@ -116,6 +135,9 @@ func (s *E1State) TraceStrings() []string {
 
 // Idle reports whether no controller work is pending.
 func (s *E1State) Idle() bool {
+	if s.env.Held != "" {
+		return false
+	}
 	for _, q := range s.queues {
 		if len(q) > 0 {
 			return false
@@ -145,7 +167,12 @@ type Scenario struct {
 	// InterleaveBudget: how many times on a path a reconcile step may be held before one of its store writes
 	// while another effectful step or the next client request runs to completion (write conflicts, stale reads)
 	InterleaveBudget int
-	Mode             QueueMode
+	// HoldBudget: how many times on a path a reconcile step may be split: parked before its (k+1)-th possibly
+	// effectful call (store write, topo write, device Set) while up to HoldDepth other transitions – steps of other
+	// controllers, client requests, faults – take place, and then continued with what it had read before.
+	HoldBudget int
+	HoldDepth  int
+	Mode       QueueMode
 	MaxStates        int
 	// map-order exploration: number of single-site deviations tried per step (0 = default order only)
 	MapOrderDeviations bool
@@ -198,6 +225,7 @@ type Explorer struct {
 	// the abstraction's own graph: outgoing edges per state
 	out       map[uint64][]absEdge
 	terminals hashSet
+	Splits int // split steps: release transitions executed
 }
 
 func queueKey(mode QueueMode, t Token) string {
@@ -311,7 +339,7 @@ func queuesCanon(queues map[string][]string) string {
 }
 
 func (x *Explorer) stateKey(canon string, queues map[string][]string, env Env, aux string) uint64 {
-	return hash64(canon + "\n#q " + queuesCanon(queues) + fmt.Sprintf("\n#env %d %d %d %d %s", env.NextReq, env.Faults, env.Crashes, env.Inter, env.Flags) + "\n#aux " + aux)
+	return hash64(canon + "\n#q " + queuesCanon(queues) + fmt.Sprintf("\n#env %d %d %d %d %s %s %d %d", env.NextReq, env.Faults, env.Crashes, env.Inter, env.Flags, env.Held, env.HeldSteps, env.Holds) + "\n#aux " + aux)
 }
 
 // newState snapshots the current world as a state (or returns the known one).
@@ -406,6 +434,13 @@ func (x *Explorer) Run() {
 					aux = x.Hooks.Aux(x, s, tr, res)
 				}
 				to, isNew := x.newState(s, tr, queues, env, aux)
+				if isNew && env.Held != "" {
+					if tr.Kind == "hold" {
+						to.heldSnap = s.snap
+					} else {
+						to.heldSnap = s.heldSnap
+					}
+				}
 				x.Transitions++
 				x.out[s.key] = append(x.out[s.key], absEdge{tr, to})
 				if to.content != s.content {
@@ -426,6 +461,37 @@ func (x *Explorer) Run() {
 					next = append(next, to)
 				}
 			}
+			// 0. split steps: while a call is held, its controller runs nothing else (one partition per controller),
+			// every other transition counts against HoldDepth, and the held call may continue at any time
+			heldCtrl := ""
+			if s.env.Held != "" {
+				hc, hid, hk := heldParts(s.env.Held)
+				heldCtrl = hc
+				w.Restore(s.snap)
+				res, reached := w.Release(hc, hid, hk, s.heldSnap, s.snap)
+				if !reached {
+					panic("split step: hold point not reached again: " + s.env.Held)
+				}
+				x.Splits++
+				if strings.Contains(res.Err, "onflict") || res.Conflicts > 0 {
+					x.conflicts++
+				}
+				env := s.env
+				env.Held, env.HeldSteps = "", 0
+				add(Trans{Kind: "release", Ctrl: hc, ID: hid, K: hk}, &res, x.enq(s.queues, res.Tokens), env)
+				if s.env.HeldSteps >= sc.HoldDepth {
+					if x.Hooks.OnExpanded != nil {
+						x.Hooks.OnExpanded(x, s, outCount)
+					}
+					continue
+				}
+			}
+			bump := func(env Env) Env {
+				if env.Held != "" {
+					env.HeldSteps++
+				}
+				return env
+			}
 			// 1. controller steps
 			var stepChoices []Trans
 			if sc.Mode == QAny {
@@ -438,6 +504,9 @@ func (x *Explorer) Run() {
 			}
 			var effectful []Trans
 			for _, tr := range stepChoices {
+				if tr.Ctrl == heldCtrl {
+					continue
+				}
 				w.Restore(s.snap)
 				res := w.Step(tr.Ctrl, tr.ID)
 				if strings.Contains(res.Err, "onflict") {
@@ -451,13 +520,35 @@ func (x *Explorer) Run() {
 					if res.Effects == 0 && res.Panic == "" {
 						continue
 					}
-					add(tr, &res, map[string][]string{}, s.env)
+					add(tr, &res, map[string][]string{}, bump(s.env))
 				} else {
 					queues := enqueue(sc.Mode, dequeue(s.queues, tr), res.Tokens)
-					add(tr, &res, queues, s.env)
+					add(tr, &res, queues, bump(s.env))
+				}
+				// 1a. split this step: hold it before its (k+1)-th possibly effectful call
+				if s.env.Held == "" && s.env.Holds < sc.HoldBudget && res.Effects > 0 && res.Panic == "" {
+					// k = 0 (parked before its first call, nothing read yet) is the same as not having started
+					for k := 1; k < 40; k++ {
+						w.Restore(s.snap)
+						hres, reached := w.Hold(tr.Ctrl, tr.ID, k)
+						if !reached {
+							break
+						}
+						env := s.env
+						env.Holds++
+						env.Held = fmt.Sprintf("%s|%s|%d|%x", tr.Ctrl, tr.ID, k, s.content)
+						env.HeldSteps = 0
+						var queues map[string][]string
+						if sc.Mode == QAny {
+							queues = map[string][]string{}
+						} else {
+							queues = enqueue(sc.Mode, dequeue(s.queues, tr), hres.Tokens)
+						}
+						add(Trans{Kind: "hold", Ctrl: tr.Ctrl, ID: tr.ID, K: k, Src: tr.Src}, &hres, queues, env)
+					}
 				}
 				// 4. crashes inside this step
-				if s.env.Crashes < sc.CrashBudget && res.Effects > 0 && res.Panic == "" {
+				if s.env.Held == "" && s.env.Crashes < sc.CrashBudget && res.Effects > 0 && res.Panic == "" {
 					for k := 0; k < res.Effects; k++ {
 						w.Restore(s.snap)
 						w.fuse.Arm(k)
@@ -478,7 +569,7 @@ func (x *Explorer) Run() {
 					reqEnabled = r.Enabled(w)
 				}
 			}
-			if s.env.Inter < sc.InterleaveBudget {
+			if s.env.Inter < sc.InterleaveBudget && s.env.Held == "" {
 				for _, a := range effectful {
 					var others []Trans
 					for _, b := range effectful {
@@ -544,7 +635,7 @@ func (x *Explorer) Run() {
 					call.Cancel()
 					tokens = append(tokens, w.Settle()...)
 				}
-				env := s.env
+				env := bump(s.env)
 				env.NextReq++
 				add(Trans{Kind: "client", Fault: r.Name}, nil, x.enq(s.queues, tokens), env)
 			}
@@ -557,7 +648,7 @@ func (x *Explorer) Run() {
 					}
 					f.Apply(w)
 					tokens := w.Settle()
-					env := s.env
+					env := bump(s.env)
 					env.Faults++
 					if f.Flag != "" {
 						env.Flags += f.Flag
@@ -566,7 +657,7 @@ func (x *Explorer) Run() {
 				}
 			}
 			// a crash between steps (process restart with nothing in flight)
-			if s.env.Crashes < sc.CrashBudget && !s.Idle() && sc.Mode != QAny {
+			if s.env.Held == "" && s.env.Crashes < sc.CrashBudget && !s.Idle() && sc.Mode != QAny {
 				w.Restore(s.snap)
 				w.fuse.Kill()
 				tokens := w.Restart()
@@ -586,11 +677,25 @@ func (x *Explorer) Run() {
 func (x *Explorer) ReplayTrace(tr []Trans, each func(i int, t Trans, res *StepResult)) {
 	w := x.W
 	w.Restore(x.init.snap)
+	var heldBegin *WorldSnap
 	for i, t := range tr {
 		var res *StepResult
 		switch t.Kind {
 		case "step":
 			r := w.Step(t.Ctrl, t.ID)
+			res = &r
+		case "hold":
+			heldBegin = w.Snapshot()
+			r, reached := w.Hold(t.Ctrl, t.ID, t.K)
+			if !reached {
+				panic("replay: hold point not reached: " + t.String())
+			}
+			res = &r
+		case "release":
+			r, reached := w.Release(t.Ctrl, t.ID, t.K, heldBegin, w.Snapshot())
+			if !reached {
+				panic("replay: hold point not reached again: " + t.String())
+			}
 			res = &r
 		case "crash":
 			w.fuse.Arm(t.K)
@@ -749,6 +854,7 @@ func (x *Explorer) RealizeExact(tr []Trans, drain bool, after func(i int, t Tran
 	w.Restore(x.init.snap)
 	queues := map[string][]string{}
 	nextReq := 0
+	var heldBegin *WorldSnap
 	take := func(ctrl, id string) string {
 		item := ctrl + "|" + id
 		bestQ, bestPos := "", -1
@@ -819,6 +925,24 @@ func (x *Explorer) RealizeExact(tr []Trans, drain bool, after func(i int, t Tran
 				res = &r
 				queues = enqueue(QExact, queues, r.Tokens)
 			}
+		case "hold":
+			if why := take(t.Ctrl, t.ID); why != "" {
+				return fmt.Sprintf("move %d %s: %s", i, t.String(), why)
+			}
+			heldBegin = w.Snapshot()
+			r, reached := w.Hold(t.Ctrl, t.ID, t.K)
+			if !reached {
+				return fmt.Sprintf("move %d %s: the step makes fewer calls in the exact run", i, t.String())
+			}
+			res = &r
+			queues = enqueue(QExact, queues, r.Tokens)
+		case "release":
+			r, reached := w.Release(t.Ctrl, t.ID, t.K, heldBegin, w.Snapshot())
+			if !reached {
+				return fmt.Sprintf("move %d %s: the hold point is not reached again", i, t.String())
+			}
+			res = &r
+			queues = enqueue(QExact, queues, r.Tokens)
 		case "restart":
 			w.fuse.Kill()
 			queues = enqueue(QExact, map[string][]string{}, w.Restart())
